@@ -13,7 +13,7 @@ Open Scope N_scope.
 Theorem C22_one_frame : forall v,
   repr I64_MAX v ->
   exists v', decode_with I64_MAX (depth v) (encode v) = Done v' [] /\ v' = sanitize v.
-Proof. intros v H. exists (sanitize v). split; [now apply reply_one_frame|reflexivity]. Qed.
+Proof. exact reply_one_frame_ex. Qed.
 
 (* with the server's own decoder limits (bulk <= 512 MiB, nesting <= 32) *)
 Theorem C22_one_frame_limits : forall v,
